@@ -92,6 +92,92 @@ def run_replay(path):
         return 124, "replay timed out"
 
 
+def sampled_replays(prop, tier, normal):
+    """Run the contracts' replay scripts -- the real code, natively, against
+    the NumPy/oracle side of the replay -- on *admissible* inputs: models of
+    the path premises of proved obligations (core._cover_and_sample).
+
+    What it is for: (1) the specification in an ``ensures`` was proved equal
+    to the code for all inputs; the replay compares the code with NumPy on
+    this input; so an agreeing replay validates the specification against
+    NumPy itself on the sample, and a spec that silently mirrors a wrong code
+    shows up as REPRODUCED; (2) a replay script that crashes would turn a
+    later real refutation into "no-failing-input-found" -- crashes are
+    counted and listed; (3) a concrete bounded exploration of the real code.
+    Never counted as proved.
+    """
+    import concurrent.futures as cf
+    per_contract = 3 if tier != "thorough" else 12
+    jobs = []
+    count: dict[str, int] = {}
+    d = os.path.join(VERIF, "replays", prop, "_sample")
+    import random
+    seed = os.environ.get("VERIF_SEED", "0") or "0"
+    cands: dict[str, list] = {}
+    for r in sorted(normal, key=lambda r: (r["contract"], r["instance"])):
+        for smp in r.get("replay_samples", []):
+            cands.setdefault(r["contract"], []).append((r, smp))
+    chosen = []
+    for cname, lst in sorted(cands.items()):
+        rng = random.Random(f"{seed}|{prop}|{cname}")
+        chosen.extend(rng.sample(lst, min(len(lst), per_contract)))
+    for r, smp in chosen:
+        c = core.REGISTRY[r["contract"]]
+        for _once in (0,):
+            bodies = {}
+            for clause, info in smp["clauses"]:
+                try:
+                    body = c.replay(r["inst"], clause, smp["model"], info)
+                except Exception:  # noqa: BLE001
+                    body = None
+                if body and body not in bodies:
+                    bodies[body] = (clause, info)
+                if len(bodies) >= 2:
+                    break
+            for body, (clause, info) in bodies.items():
+                key = f"{c.name}|{clause}|{r['instance']}"
+                os.makedirs(d, exist_ok=True)
+                path = os.path.join(d, _slug(key) + f".p{smp['path']}.py")
+                src = (f'"""Sampled replay (admissible input from the path '
+                       f'premise).\n\nproperty   : {prop}\nobligation : '
+                       f'{key}\n"""\n'
+                       f"OBLIGATION = {key!r}\nMODEL = {smp['model']!r}\n"
+                       f"INFO = {info!r}\nVERIFIER_OUTPUT = 'proved'\n"
+                       + body)
+                with open(path, "w") as f:
+                    f.write(src)
+                jobs.append((key, path, src, smp["model"]))
+                count[c.name] = count.get(c.name, 0) + 1
+    outcomes = dict(agree=0, no_input=0, crashed=0, reproduced=0)
+    failures, crashes = [], []
+    with cf.ThreadPoolExecutor(max_workers=min(16, os.cpu_count() or 1)) as ex:
+        for (key, path, src, model), (rc, out) in zip(
+                jobs, ex.map(lambda j: run_replay(j[1]), jobs)):
+            if rc == 0:
+                outcomes["agree"] += 1
+            elif rc == 2:
+                outcomes["no_input"] += 1
+            elif rc == 1 and "REPRODUCED" in out:
+                outcomes["reproduced"] += 1
+                first = next((ln for ln in out.splitlines()
+                              if "REPRODUCED" in ln), "")[:300]
+                failures.append(dict(
+                    key=key, replay_src=src,
+                    what=f"sampled replay on an admissible input {_short(model)}"
+                         f": {first}"))
+            else:
+                outcomes["crashed"] += 1
+                crashes.append(dict(key=key, rc=rc,
+                                    tail=out.strip().splitlines()[-1:][:1]))
+    return dict(
+        name="replay-sample", kind="bounded",
+        what="replay scripts (real code, natively, against the NumPy/oracle "
+             "side) on models of the path premises of proved obligations",
+        bound=f"<= {per_contract} scripts per contract, one premise model each",
+        evaluations=len(jobs), outcomes=outcomes, crashed=crashes[:20],
+        contracts_with_replay=len(count), failures=failures)
+
+
 def run_property(prop, tier, *, jobs=None, only=None, verbose=False,
                  write_evidence=True):
     t0 = time.time()
@@ -242,6 +328,17 @@ def run_property(prop, tier, *, jobs=None, only=None, verbose=False,
         if out:
             lines.append("  replay: " + out.strip().splitlines()[0][:300])
 
+    # sampled replays (bounded stand-in, and a guard on the specifications
+    # and on the replay scripts themselves)
+    if not only or True:
+        try:
+            extras.append(sampled_replays(prop, tier, normal))
+        except Exception:  # noqa: BLE001
+            import traceback
+            extras.append(dict(name="replay-sample", kind="fault",
+                               fault=traceback.format_exc(), failures=[],
+                               evaluations=0))
+
     # extras
     extra_summ = []
     for ex in extras:
@@ -284,6 +381,12 @@ def run_property(prop, tier, *, jobs=None, only=None, verbose=False,
             suffix = "" if reproduced else " no-failing-input-found"
             lines.append(f"VIOLATION property={prop} replay={path}{suffix}")
             lines.append(f"  {key}: {fl.get('what')}")
+        if ex.get("name") == "replay-sample":
+            lines.append(f"  replay-sample: {ex['evaluations']} script(s) on "
+                         f"premise models: {ex['outcomes']}")
+            for cr in ex.get("crashed", [])[:8 if verbose else 3]:
+                lines.append(f"    crashed: {cr['key']} rc={cr['rc']} "
+                             f"{cr['tail']}")
         extra_summ.append({k: v for k, v in ex.items()
                            if k not in ("failures",)}
                           | dict(n_failures=len(ex.get("failures", []))))
